@@ -594,7 +594,15 @@ def d_validate( ctx ):
     is_wlen = lambda v: is_call_to( v, 'len' ) and v.args and isinstance( v.args[0], ast.Attribute ) and v.args[0].attr == 'data' \
         and data_p in names_in( v.args[0] )
     cnt_vars = { n for n in rld.defs if rld.direct( n, is_cnt ) }
-    elm_vars = { n for n in rld.defs if rld.direct( n, is_elm ) }
+    elm_vars = { n for n in rld.defs if rld.direct( n, lambda v: any( is_elm( w ) for w in ast.walk( v ))) }
+    # the count default is selected by PRESENCE of .elements ( .get( 'elements', default )), never by truthiness: an explicit count of 0
+    # is an invalid request and must stay 0 so that the range assertions refuse it
+    for n_ in sorted( elm_vars ):
+        for v in rld.defs[n_]:
+            if is_elm( v ) and len( v.args ) == 2:
+                res.ok( src, v, 'element count = .get( \'elements\', default ): the default applies only when the request carries no count' )
+            else:
+                res.bad( src, v, v, 'the element count default is selected by truthiness: an explicit count of 0 is turned into "all remaining elements", so a zero-count write carrying data is accepted and stored instead of refused' )
     ret = [ s for s in re_fn.body if isinstance( s, ast.Return ) ]
     if not ret or not isinstance( ret[-1].value, ast.Tuple ) or len( ret[-1].value.elts ) < 3:
         raise AnalysisError( 'reply_elements: return tuple not found' )
@@ -822,6 +830,23 @@ def r_snapshot( ctx ):
         res.ok( src, pr, 'produce iterates over the slice copy self[start:stop]' )
     else:
         res.bad( src, pr, 'Attribute.produce', 'produce must iterate one slice copy self[start:stop], not index element by element' )
+    # the request handlers move a whole range with ONE subscript operation on the tag: a loop storing / loading element by element lets
+    # another session's request interleave between two elements (a torn read, or two writes mixed)
+    lsrc = ctx.src( LOGIX )
+    lr = lsrc.get( 'Logix.request' )
+    un = [ s_ for s_ in ast.walk( lr ) if isinstance( s_, ast.Assign ) and is_call_to( s_.value, 'self.reply_elements' ) and s_.value.args ]
+    ATT = dotted( un[0].value.args[0] ) if un else 'attribute'
+    subs = [ n for n in ast.walk( lr ) if isinstance( n, ast.Subscript ) and dotted( n.value ) == ATT ]
+    tagops = [ n for n in subs if not ( isinstance( n.slice, ast.Constant ) and isinstance( n.slice.value, str )) ]
+    if not tagops:
+        raise AnalysisError( 'Logix.request: no subscript access to the tag found' )
+    for n in tagops:
+        inloop = [ a for a in lsrc.ancestors( n ) if isinstance( a, ( ast.For, ast.While, ast.ListComp, ast.GeneratorExp, ast.comprehension )) and any( a is x for x in ast.walk( lr )) ]
+        kind = 'store' if isinstance( n.ctx, ast.Store ) else 'load'
+        if inloop or not isinstance( n.slice, ast.Slice ):
+            res.bad( lsrc, n, 'Logix.request: element-wise %s %s' % ( kind, norm_text( n )), 'the requested range must be moved by one slice operation on the tag; element-by-element access is not atomic with respect to other sessions\' requests', func='Logix.request' )
+        else:
+            res.ok( lsrc, n, 'Logix.request: the range is moved by the single slice %s %s' % ( kind, norm_text( n )))
     return res
 
 
@@ -1098,10 +1123,31 @@ def p_one( ctx ):
                 res.bad( src, s_.stmt, s_.stmt, 'the send is not conditioned on the result of enip_process', func=qn )
             # and the payload sent is the encoding of this iteration's response
             enc = [ n for n in cfg.nodes if n.kind == 'stmt' and isinstance( n.stmt, ast.Assign ) and is_call_to( n.stmt.value, 'parser.enip_encode', 'enip_encode' ) ]
-            if enc and pmatch( enc[0].stmt.value, 'parser.enip_encode( %s.response.enip )' % DATA ) and cfg.must_pass( first[0], s_, enc, correlated=False ):
+            sendcall = [ c for c in ast.walk( s_.stmt ) if isinstance( c, ast.Call ) and isinstance( c.func, ast.Attribute ) and c.func.attr in ( 'send', 'sendto', 'sendall' ) and dotted( c.func.value ) == 'conn' ][0]
+            payload = dotted( sendcall.args[0] ) if sendcall.args else None
+            encname = dotted( enc[0].stmt.targets[0] ) if enc else None
+            # the payload local has no other definition than this iteration's encoding (nothing accumulated / carried over)
+            others = [ n for n in cfg.nodes if n.kind == 'stmt' and isinstance( n.stmt, ( ast.Assign, ast.AugAssign )) and n not in enc
+                       and any( dotted( t ) == payload for t in ( n.stmt.targets if isinstance( n.stmt, ast.Assign ) else [ n.stmt.target ] )) ]
+            if enc and pmatch( enc[0].stmt.value, 'parser.enip_encode( %s.response.enip )' % DATA ) and cfg.must_pass( first[0], s_, enc, correlated=False ) \
+               and payload == encname and not others:
                 res.ok( src, s_.stmt, '%s: sent bytes = enip_encode( data.response.enip ) of this iteration' % qn )
             else:
-                res.bad( src, s_.stmt, s_.stmt, 'the reply sent must be enip_encode( data.response.enip ) computed in the same iteration', func=qn )
+                res.bad( src, s_.stmt, s_.stmt, 'the reply sent must be exactly enip_encode( data.response.enip ) computed in the same iteration (not a buffer accumulated over several requests)', func=qn )
+        # every reply is transmitted in the iteration that produced it: from the truthy outcome of enip_process every normal path to the next
+        # iteration passes the send (a reply that is held back is lost when the session ends or fails before the next flush)
+        tests = [ a for a in acts if a.kind == 'test' ]
+        if tests and sends:
+            for t in tests:
+                for m, l in cfg.succ[t]:
+                    if l != 'true':
+                        continue
+                    miss = [ b for b in backs if b in cfg.reachable( m, avoid=set( sends ), edge_ok=lambda x, y, lab: lab != 'exc' and y is not h ) ]
+                    if miss:
+                        res.bad( src, t.stmt, 'a path from a truthy enip_process to the next iteration avoids conn.%s' % send_attr,
+                                 'a produced reply is not transmitted in its own iteration: if the session ends (Unregister, error, EOF) before a later flush the client never receives the reply to a request that was executed', func=qn )
+                    else:
+                        res.ok( src, t.stmt, '%s: every produced reply is transmitted before the next frame is read' % qn )
         # replies are written with blocking sends: no socket timeout / non-blocking mode on the connection (receive timeouts are done with select in network.recv)
         for scope in ( fn, src.get( 'enip_srv', required=False )):
             if scope is None:
@@ -1203,6 +1249,21 @@ def p_act( ctx ):
         res.bad( csrc, closers[0], closers[0], 'the persistent framing engine is closed when __next__ returns for more input: a reply split over several received chunks can never be completed' )
     else:
         res.ok( csrc, nx, 'client.__next__ keeps its framing engine alive while a frame is incomplete (no close / closing)' )
+    # the artifact the persistent engine fills is created together with that engine, and only then: the engine keeps a reference to the
+    # data object it was started with, so rebinding self.data while an engine is running makes __next__ return an object the engine never fills
+    runs = [ s_ for s_ in ast.walk( nx ) if isinstance( s_, ast.Assign ) and dotted( s_.targets[0] ) == 'self.engine' and is_call_to( s_.value, 'self.frame.run' ) ]
+    if len( runs ) != 1:
+        raise AnalysisError( 'client.__next__: creation of the framing engine ( self.engine = self.frame.run( ... )) not found' )
+    rkw = { k.arg: k.value for k in runs[0].value.keywords }
+    DATAATTR = dotted( rkw.get( 'data' )) or 'self.data'
+    blk = csrc.parent.get( runs[0] )
+    dstores = [ s_ for s_ in ast.walk( nx ) if isinstance( s_, ( ast.Assign, ast.AugAssign )) and any( dotted( t ) == DATAATTR for t in ( s_.targets if isinstance( s_, ast.Assign ) else [ s_.target ] )) ]
+    if isinstance( blk, ast.If ) and pmatch( blk.test, 'self.engine is None' ) is not None and dstores and all( csrc.parent.get( d ) is blk and d in blk.body and blk.body.index( d ) < blk.body.index( runs[0] ) for d in dstores ):
+        res.ok( csrc, runs[0], 'client.__next__: %s is (re)created only where a new framing engine is started on it ( if self.engine is None )' % DATAATTR )
+    else:
+        off = [ d for d in dstores if not ( csrc.parent.get( d ) is blk and isinstance( blk, ast.If )) ]
+        res.bad( csrc, off[0] if off else runs[0], '%s rebound outside the block that starts the framing engine' % DATAATTR,
+                 'a response that needs more than one received chunk is parsed by the engine started on the OLD object; __next__ then returns the fresh, empty one: the reply is lost although all its bytes arrived' )
     def engine_loop( x ):
         return isinstance( x, ast.For ) and dotted( x.iter ) in ( 'self.engine', 'engine' )
     tries = [ t for t in walk_no_nested( nx ) if isinstance( t, ast.Try ) and any( engine_loop( x ) for x in ast.walk( t )) ]
@@ -2228,4 +2289,171 @@ def t_symbol( ctx ):
         res.ok( src, re_, 'resolve_element: the path\'s element segment, default element 0' )
     else:
         res.bad( src, re_, 'resolve_element', 'the element index is the path\'s element segment, defaulting to 0' )
+    return res
+
+
+# ---------------------------------------------------------------------------------------- C03: D-PATHSTOP (decision table of resolve()'s early exit)
+
+@rule( 'D-PATHSTOP', props=( 'C03', 'C07' ), floor=2 )
+def d_pathstop( ctx ):
+    """device.resolve: the walk over the path segments stops early iff class and instance are known and ( the attribute is known, or none is
+    wanted, or a default is supplied and this segment does not carry one ); the default attribute is applied iff none was found and a default
+    (not just True) was supplied - both conditions are evaluated over the whole finite abstract domain"""
+    res = Result( 'D-PATHSTOP' )
+    src = ctx.src( DEVICE )
+    fn = src.get( 'resolve' )
+    loops = [ f for f in fn.body if isinstance( f, ast.For ) and isinstance( f.target, ast.Name ) and 'segment' in txt( f.iter ) ]
+    if len( loops ) != 1:
+        raise AnalysisError( 'resolve: loop over the path segments not found' )
+    lp = loops[0]; TERM = lp.target.id
+    brk = [ s for s in lp.body if isinstance( s, ast.If ) and any( isinstance( b, ast.Break ) for b in s.body ) ]
+    # the accumulator: the dict literal with the three keys
+    acc = [ s for s in fn.body if isinstance( s, ast.Assign ) and isinstance( s.value, ast.Dict ) and { try_fold( k ) for k in s.value.keys } == { 'class', 'instance', 'attribute' } ]
+    if not acc or not isinstance( acc[0].targets[0], ast.Name ):
+        raise AnalysisError( 'resolve: result accumulator { class, instance, attribute } not found' )
+    RES = acc[0].targets[0].id
+    ATT = fn.args.args[1].arg
+    import itertools
+    def cells():
+        for c, i, a, mode, t in itertools.product(( 5, None ), ( 1, None ), ( 3, None ), ( False, True, 1 ), ( True, False )):
+            yield c, i, a, mode, t, { RES: { 'class': c, 'instance': i, 'attribute': a }, ATT: mode, TERM: ( { 'attribute': 7 } if t else { 'element': 0 } ) }
+    if len( brk ) != 1 or lp.body.index( brk[0] ) != 0:
+        res.bad( src, lp, 'early exit of the segment walk', 'exactly one early-exit test is expected at the top of the segment loop' )
+    else:
+        wrong = []
+        n = 0
+        for c, i, a, mode, t, env in cells():
+            n += 1
+            try:
+                got = bool( fold( brk[0].test, env ))
+            except NoFold as exc:
+                raise AnalysisError( 'resolve: early-exit condition outside the modelled subset: %s' % exc )
+            want = c is not None and i is not None and ( a is not None or not mode or ( mode is not True and not t ))
+            if got != want:
+                wrong.append(( c, i, a, mode, t, got ))
+        res.cells += n
+        if wrong:
+            c, i, a, mode, t, got = wrong[0]
+            res.bad( src, brk[0], 'early exit: class %s, instance %s, attribute %s, attribute argument %r, segment %s an attribute -> %s (%d of %d cells differ)' % (
+                'known' if c else 'unknown', 'known' if i else 'unknown', 'known' if a else 'unknown', mode, 'carries' if t else 'does not carry', 'stop' if got else 'continue', len( wrong ), n ),
+                     'the walk must continue while a wanted attribute may still come: stopping early ignores an explicit attribute segment (every numerically addressed tag is then served from the default attribute), continuing too long consumes the element segment' )
+        else:
+            res.ok( src, brk[0], 'early exit agrees with the specified table on all %d cells of class x instance x attribute x mode x segment-kind' % n )
+    # default application after the loop
+    dfl = [ s for s in fn.body if isinstance( s, ast.If ) and any( isinstance( b, ast.Assign ) and pmatch( b.targets[0], "%s['attribute']" % RES ) is not None and dotted( b.value ) == ATT for b in s.body ) ]
+    if len( dfl ) != 1:
+        res.bad( src, fn, 'default attribute', 'a supplied default attribute must be applied when the path carried none' )
+    else:
+        wrong = []
+        n = 0
+        for a, mode in itertools.product(( 3, None ), ( False, True, 1 )):
+            n += 1
+            env = { RES: { 'class': 5, 'instance': 1, 'attribute': a }, ATT: mode }
+            try:
+                got = bool( fold( dfl[0].test, env ))
+            except NoFold as exc:
+                raise AnalysisError( 'resolve: default-attribute condition outside the modelled subset: %s' % exc )
+            want = a is None and mode is not False and mode is not True
+            if got != want:
+                wrong.append(( a, mode, got ))
+        res.cells += n
+        if wrong:
+            res.bad( src, dfl[0], 'default applied for attribute %s, argument %r: %s' % ( 'known' if wrong[0][0] else 'unknown', wrong[0][1], wrong[0][2] ),
+                     'the default attribute applies exactly when the path carried none and a default number was supplied' )
+        else:
+            res.ok( src, dfl[0], 'the default attribute is applied iff the path carried none and a default number was supplied (%d cells)' % n )
+    return res
+
+
+# ---------------------------------------------------------------------------------------- C05/C03: K-KEYPASS
+
+@rule( 'K-KEYPASS', props=( 'C05', 'C03' ), floor=2 )
+def k_keypass( ctx ):
+    """every subclass of Attribute that overrides __getitem__ / __setitem__ hands the key it received, unchanged, to the inherited method:
+    Attribute._validate_key refuses a slice that runs past the end of the tag by looking at the RAW key ( key.stop vs. the clipped stop );
+    a normalised / clamped key defeats that check"""
+    res = Result( 'K-KEYPASS' )
+    n = 0
+    for rel in ( 'server/enip/main.py', 'server/enip/device.py', 'server/enip/logix.py', 'server/enip/hart.py', 'server/enip/historize.py', 'server/enip/weather.py' ):
+        if not ctx.model.exists( rel ):
+            continue
+        src = ctx.src( rel )
+        for cd in ast.walk( src.tree ):
+            if not isinstance( cd, ast.ClassDef ) or cd.name == 'Attribute':
+                continue
+            bases = [ dotted( b ) or '' for b in cd.bases ]
+            if not any( b.split( '.' )[-1] in ( 'Attribute', 'attribute_class' ) or b.split( '.' )[-1].startswith( 'Attribute_' ) for b in bases ):
+                continue
+            for f in cd.body:
+                if not ( isinstance( f, ast.FunctionDef ) and f.name in ( '__getitem__', '__setitem__' ) and len( f.args.args ) >= 2 ):
+                    continue
+                n += 1
+                key = f.args.args[1].arg
+                sup = [ c for c in ast.walk( f ) if isinstance( c, ast.Call ) and isinstance( c.func, ast.Attribute ) and c.func.attr == f.name and is_call_to( c.func.value, 'super' ) ]
+                stores = [ s for s in ast.walk( f ) if isinstance( s, ast.Name ) and s.id == key and isinstance( s.ctx, ast.Store ) ]
+                qn = '%s.%s' % ( cd.name, f.name )
+                if not sup:
+                    res.ok( src, f, '%s does not delegate to the inherited accessor' % qn, nontrivial=False )
+                    continue
+                bad = False
+                for c in sup:
+                    if not c.args or dotted( c.args[0] ) != key:
+                        bad = True
+                        res.bad( src, c, '%s: super().%s( %s )' % ( qn, f.name, norm_text( c.args[0] ) if c.args else '' ), 'the inherited accessor must receive the key exactly as it was given', func=qn )
+                if stores:
+                    bad = True
+                    res.bad( src, stores[0], '%s rebinds its key (%s) before delegating' % ( qn, norm_text( src.enclosing( stores[0], ( ast.stmt, )) or stores[0] )),
+                             'a slice normalised with key.indices( len ) has its stop clamped to the tag length: Attribute._validate_key then no longer sees that the request ran past the end, and a write just beyond the end is acknowledged (and grows the tag) instead of being refused', func=qn )
+                if not bad:
+                    res.ok( src, f, '%s hands its key unchanged to the inherited accessor' % qn )
+    if n < 2:
+        raise AnalysisError( 'K-KEYPASS: overriding accessors of Attribute subclasses not found (%d)' % n )
+    return res
+
+
+# ---------------------------------------------------------------------------------------- C06/C13: P-ROUTE (shared route connection of the UCMM)
+
+@rule( 'P-ROUTE', props=( 'C06', 'C13' ), floor=3 )
+def p_route( ctx ):
+    """UCMM.request, routed Unconnected Send: the connection to a route target is shared by all sessions and replies are not matched by
+    context; so every failure between sending the request and accepting its response (no response within the time-out, error status) must
+    drop that connection - the try whose handler deletes self.route_conn[target] and re-raises encloses the send, the wait and every check
+    of the response"""
+    res = Result( 'P-ROUTE' )
+    src = ctx.src( UCMM )
+    fn = src.get( 'UCMM.request' )
+    M = Matcher()
+    aw = M.find( fn, '( _rsp, _ela ) = client.await_response( _conn, timeout=_t )' )
+    if aw is None:
+        raise AnalysisError( 'UCMM.request: wait for the routed response ( client.await_response ) not found' )
+    RSP, CONN = M.name( '_rsp' ), M.name( '_conn' )
+    tries = [ t for t in ast.walk( fn ) if isinstance( t, ast.Try ) and any(
+        any( isinstance( d, ast.Delete ) and any( 'route_conn' in txt( x ) for x in d.targets ) for d in ast.walk( h )) and any( isinstance( r, ast.Raise ) for r in h.body )
+        for h in t.handlers ) ]
+    if len( tries ) != 1:
+        res.bad( src, aw, 'routed request failure handling', 'a failed routed request must close and forget the shared route connection ( del self.route_conn[target]; raise )' )
+        return res
+    T = tries[0]
+    h = [ h for h in T.handlers if any( isinstance( d, ast.Delete ) for d in ast.walk( h )) ][0]
+    if h.type is None or dotted( h.type ) in ( 'Exception', 'BaseException' ):
+        res.ok( src, h, 'any failure of the routed exchange deletes the shared route connection and re-raises' )
+    else:
+        res.bad( src, h, 'except %s' % txt( h.type ), 'every kind of failure of the routed exchange must drop the shared connection' )
+    inside = set( id( x ) for b in T.body for x in ast.walk( b ))
+    send = [ c for c in ast.walk( fn ) if isinstance( c, ast.Call ) and isinstance( c.func, ast.Attribute ) and c.func.attr == 'unconnected_send' and dotted( c.func.value ) == CONN ]
+    checks = [ a for a in ast.walk( fn ) if isinstance( a, ast.Assert ) and RSP in names_in( a.test ) ]
+    if not send or not checks:
+        res.bad( src, aw, 'routed exchange', 'the routed request must be sent on the route connection and its response checked (present, status 0)' )
+        return res
+    for node, what in [ ( send[0], 'the request is sent' ), ( aw, 'the response is awaited' ) ] + [ ( a, 'the response is checked ( %s )' % norm_text( a.test )[:40] ) for a in checks ]:
+        if id( node ) in inside:
+            res.ok( src, node, '%s inside the try that drops the route connection on failure' % what )
+        else:
+            res.bad( src, node, '%s outside the try that drops the route connection' % what,
+                     'when this fails (e.g. no response within the time-out) the shared connection stays in use with a response still in flight: it is delivered as the answer to the NEXT routed request of any session, and every later one is off by one' )
+    # both conditions are checked: a response arrived, and its encapsulation status is 0
+    if any( pmatch( a.test, RSP ) is not None for a in checks ) and any( pmatch( a.test, '%s.enip.status == 0' % RSP ) is not None for a in checks ):
+        res.ok( src, checks[0], 'the response must be present and carry encapsulation status 0' )
+    else:
+        res.bad( src, checks[0], 'response checks: %s' % [ norm_text( a.test ) for a in checks ], 'a missing response (time-out) and a non-zero encapsulation status must both fail the routed request' )
     return res
